@@ -136,7 +136,7 @@ impl Property for C20 {
         let mut top_path = "/w/top.sv".to_string();
         // opaque conditions, identical for every call of the group
         let mut opaque: Vec<Fault> = vec![];
-        let cond = rng.below(9);
+        let cond = rng.below(10);
         let incl_files: Vec<String> = prog.files.iter().skip(1).cloned().collect();
         match cond {
             0 if !incl_files.is_empty() => opaque.push(Fault {
@@ -162,6 +162,29 @@ impl Property for C20 {
                         4 => t.push_str("// caf\u{e9} \u{4e16}\u{754c}\n"),
                         5 => t = t.replacen("module top;", "module top;\n  initial $display(\"h\u{e9}llo `TOPW\");", 1),
                         6 => t = format!("{}{}", gen::comment_macro_program(&mut rng), t),
+                        7 => {
+                            // a top file WITHOUT any backtick: the preprocessor must still be run on it, on every route
+                            // (string literals and escaped identifiers with trailing blanks or comments, lexical errors)
+                            let mut d = String::from("module plain; /* no directive here */\n");
+                            for i in 0..1 + rng.below(4) {
+                                match rng.below(6) {
+                                    0 => d.push_str(&format!("  initial $display(\"s{}\" , x); // after a string\n", i)),
+                                    1 => d.push_str(&format!("  wire \\esc{}  /* c */ ;\n", i)),
+                                    2 => d.push_str("  initial $display(\"a\"  /* c */  );\n"),
+                                    3 => d.push_str("  localparam string S = \"t\" ;\n"),
+                                    4 => d.push_str(&format!("  wire w{};\n", i)),
+                                    _ => d.push_str("  // only a comment\n"),
+                                }
+                            }
+                            d.push_str("endmodule\n");
+                            match rng.below(6) {
+                                0 => d.push_str("/* unterminated comment\n"),
+                                1 => d.push_str("\"unterminated string\n"),
+                                2 => d.push_str("wire \\\n"),
+                                _ => {}
+                            }
+                            t = d;
+                        }
                         _ => {}
                     }
                     // byte-level variations of the top file that a reader might "normalise"
@@ -272,6 +295,34 @@ impl Property for C20 {
             ops = seq;
             sc.family = format!("{} sequence", sc.family);
         }
+        if !sc.family.contains("sequence") && rng.chance(1, 10) {
+            // the top file itself cannot be read: only the file-reading routes exist then, and they must agree
+            let kind = match rng.below(6) {
+                0 => FaultKind::InvalidUtf8Tail,
+                1 => FaultKind::Corrupt { k: rng.usize_below(8), byte: 0xFF },
+                2 => FaultKind::EioAt { k: rng.usize_below(30) },
+                3 => FaultKind::IsDir,
+                4 => FaultKind::Enoent,
+                _ => FaultKind::TruncateAt { k: 1 + rng.usize_below(40) },
+            };
+            let keep: Vec<Op> = ops
+                .iter()
+                .filter(|o| matches!(o, Op::Call(c) if c.api.reads_file()))
+                .cloned()
+                .map(|o| match o {
+                    Op::Call(mut c) => {
+                        c.faults.retain(|f| !f.kind.transparent());
+                        c.faults.push(Fault { path: "/w/top.sv".to_string(), nth: None, kind: kind.clone() });
+                        Op::Call(c)
+                    }
+                    other => other,
+                })
+                .collect();
+            if keep.len() >= 2 {
+                ops = keep;
+                sc.family = format!("{} top-unreadable", sc.family);
+            }
+        }
         sc.threads = vec![ops];
         if rng.chance(1, 6) {
             // the top file lives outside the working directory, with one of its headers next to it and
@@ -352,7 +403,8 @@ impl Property for C20 {
         let no_top_fault = calls
             .iter()
             .all(|c| c.faults.iter().all(|f| f.kind.transparent() || f.path != top_norm));
-        top && calls.len() >= 2 && same && opaque_same && no_top_fault
+        let unreadable = sc.family.contains("top-unreadable") && calls.iter().all(|c| c.api.reads_file());
+        top && calls.len() >= 2 && same && opaque_same && (no_top_fault || unreadable)
     }
 
     fn check(&self, sc: &Scenario) -> RunReport {
@@ -432,6 +484,9 @@ impl Property for C20 {
         }
         if sc.family.contains("top-outside-cwd") {
             rep.probe("top_outside_cwd_groups", 1);
+        }
+        if sc.family.contains("top-unreadable") {
+            rep.probe("top_unreadable_groups", 1);
         }
         if sc.family.starts_with("parse_lib quartet") {
             rep.probe("lib_groups", 1);
